@@ -262,6 +262,11 @@ fn read_tree(root: &std::path::Path, dir: &std::path::Path, out: &mut BTreeMap<S
 /// Run the real CLI in `dir` (created, emptied): `src` as `src/lib.rs`, `toml` as `config.toml` when given, every
 /// `cli` entry as one `--config k=v`.
 pub fn cli_gen(dir: &std::path::Path, src: &str, target: &str, toml: Option<&str>, cli: &[String]) -> CliOutcome {
+    cli_gen_args(dir, src, target, toml, cli, &[])
+}
+
+/// as `cli_gen`, with further command-line arguments (e.g. `-u crate:url` docs base URLs)
+pub fn cli_gen_args(dir: &std::path::Path, src: &str, target: &str, toml: Option<&str>, cli: &[String], extra: &[String]) -> CliOutcome {
     let _ = std::fs::remove_dir_all(dir);
     std::fs::create_dir_all(dir.join("src")).unwrap();
     std::fs::write(dir.join("src/lib.rs"), src).unwrap();
@@ -273,6 +278,7 @@ pub fn cli_gen(dir: &std::path::Path, src: &str, target: &str, toml: Option<&str
     for c in cli {
         cmd.arg("--config").arg(c);
     }
+    cmd.args(extra);
     match cmd.output() {
         Err(e) => CliOutcome { ran: false, stderr: format!("cannot run {}: {e}", cli_path()), ..Default::default() },
         Ok(o) => {
